@@ -12,6 +12,7 @@ def _metric_scale(
     axis: int,
     shape: tuple[int, int, int],
     stencil: str,
+    periodic: bool = False,
 ) -> jax.Array | float:
     """Return the local derivative scale for a rectilinear Yee curl term.
 
@@ -20,6 +21,10 @@ def _metric_scale(
     equivalent term is ``(c * dt / courant_number) * diff / d_axis[i]``.  The
     prefactor equals the uniform spacing on legacy grids, so uniform behavior is
     unchanged while stretched grids get local metric factors.
+
+    ``periodic`` marks an axis whose halo wraps around: the backward neighbour of the
+    first cell is then the last cell, so the dual spacing across the seam is the mean of
+    the first and last cell widths instead of the replicated first width.
     """
     if not config.has_nonuniform_grid:
         return 1.0
@@ -28,7 +33,8 @@ def _metric_scale(
     assert grid is not None
     widths = grid.cell_widths(axis)
     if stencil == "backward":
-        prev_widths = jnp.concatenate([widths[:1], widths[:-1]])
+        first_prev = widths[-1:] if periodic else widths[:1]
+        prev_widths = jnp.concatenate([first_prev, widths[:-1]])
         widths = 0.5 * (widths + prev_widths)
     elif stencil != "forward":
         raise ValueError(f"Unknown derivative stencil: {stencil}")
@@ -345,9 +351,14 @@ def curl_H(
             - The updated dictionary of auxiliary electric fields `psi_E`.
     """
     shape = H_pad.shape[1] - 2, H_pad.shape[2] - 2, H_pad.shape[3] - 2
-    dx_scale = _metric_scale(config, axis=0, shape=shape, stencil="backward")
-    dy_scale = _metric_scale(config, axis=1, shape=shape, stencil="backward")
-    dz_scale = _metric_scale(config, axis=2, shape=shape, stencil="backward")
+    # the min-side halo wraps only on periodic/Bloch axes that are not cut by a symmetry plane
+    wraps = [False, False, False]
+    for boundary in objects.boundary_objects:
+        if boundary.uses_wrap_padding and config.symmetry[boundary.axis] == 0:
+            wraps[boundary.axis] = True
+    dx_scale = _metric_scale(config, axis=0, shape=shape, stencil="backward", periodic=wraps[0])
+    dy_scale = _metric_scale(config, axis=1, shape=shape, stencil="backward", periodic=wraps[1])
+    dz_scale = _metric_scale(config, axis=2, shape=shape, stencil="backward", periodic=wraps[2])
 
     Hx = H_pad[0]
     Hy = H_pad[1]
